@@ -28,6 +28,18 @@ special parameter shapes, two code paths that must agree):
              history.  Every read is compared with the model and is subject to the property's sentences.
   rawgate / rawpair   (oracle only: the model has no exact cos/sin of these)  Python ints, sympy Integers/Rationals,
              dyadic floats as angles in radians; group law across different number types, e.g. G(3)*G(0.0) = G(3.0)
+
+Round-9 strengthening (class: an EXACT REAL CONSTANT as parameter whose realness / sign / zero-ness sympy cannot decide
+syntactically - `is_real` / `is_zero` / `is_positive` is None):
+  constgate / constpair   (oracle only: the model has no exact cos/sin of these)  every parametric built-in gate and Delay's
+             duration at symbol-free sympy expressions denoting real numbers (acosh(2), atanh(1/2), asec(3), asin(1/3), log(3),
+             exp(-2), sqrt(2), 2**(1/3), E, EulerGamma, GoldenRatio, cos(1), pi/7 + sqrt(3), -acosh(2), sums / products / total
+             real functions of them, expressions that are 0 without sympy noticing), through every route a parameter value
+             can take: constructor, bind of a symbol, bind inside an expression, replace_params, bind / replace_params of the gate
+             operation, next to float parameters, substitution into the symbolic matrix.  Judged by the property's sentences at the value of the constant, which the
+             harness computes itself with `math` (never with sympy): matrix computable, dimension, unitary, flag truthful,
+             angle 0 = identity, the same real value gives the same matrix as its float, G(a)*G(b) = G(a+b) with a+b formed
+             symbolically by sympy and G(a)*G(b) = G(float(a+b)).
 """
 import copy
 import inspect
@@ -46,7 +58,12 @@ RULE = ("every one of the 27 gates; each parametric gate at 40 (thorough 400) ra
         "several 4*pi turns; every kind of literal zero for every parametric gate; 10 one-parameter families at 20 "
         "(thorough 200) angle pairs; ~150 (thorough ~600) sessions = histories on long-lived gate objects with "
         "in-place edits of returned matrices, rebuilt equal objects, interleaved siblings, repeated binds, group law "
-        "and fixed relations at the end; oracle-only integer / rational / mixed-type angles; "
+        "and fixed relations at the end; oracle-only integer / rational / mixed-type angles; oracle-only exact real "
+        "constants (symbol-free sympy expressions: inverse hyperbolic / inverse trigonometric / log / exp / roots / named "
+        "constants, their sums, products and compositions, hidden zeros; most with is_real / is_positive None) for every "
+        "parametric gate and Delay through constructor / package attribute / bind / bind inside an expression / "
+        "replace_params / GateOperation.bind / .replace_params / substitution / next to floats (~210 gates, ~70 group-law "
+        "pairs per quick run); "
         "non-trivial: a parametric gate with at least one angle that is not a multiple of pi/2, an angle pair "
         "with both angles off the axes, the fixed-relation case, a session with an edit, a group-law step or two "
         "objects; distinct = distinct canonical JSON of the case")
@@ -70,6 +87,11 @@ TRUSTED = [
     # --- T10 end
     "the model is a pure function of (gate, parameters): a session (history) is answered read by read by the same "
     "model function - that the implementation's answer may not depend on the history is exactly what is compared",
+    "round 9 (constgate / constpair, oracle only): the real number an exact constant denotes is computed by the harness "
+    "with Python's math module from the case's expression tree (_const_value), never with sympy; trusted: math's acosh, "
+    "atanh, asinh, asin, acos, atan, log, exp, sqrt, cos, sin, tanh to ~1e-15 relative, the identities asec x = acos 1/x, "
+    "acsc x = asin 1/x, acoth x = atanh 1/x, asech x = acosh 1/x, and that _const_sympy builds the expression the tree "
+    "names (sympy.acosh etc. applied to sympy Rationals)",
 ]
 ASSUMPTIONS = [
     "parameters are Python int/float or sympy numbers/symbols/expressions; numpy scalars are outside the domain "
@@ -78,6 +100,14 @@ ASSUMPTIONS = [
     "'flagged self-adjoint' is observed as is_hermitian == True or `.dagger is gate`",
     "the property holds at every moment of a process: a caller editing a matrix it obtained from `.matrix` / "
     "`.dagger.matrix` (its own object in the unchanged library) is inside the domain and may not change any gate",
+    "a 'real value of a parameter' may be written as any symbol-free sympy expression that denotes a finite real number, "
+    "whether or not sympy's assumptions system can decide that (is_real / is_zero / is_positive may be None); generated "
+    "are only expressions whose functions are applied strictly inside their real domains (no poles: |x| < 1 for atanh, "
+    "x > 1 for acosh, |x| > 1 for asec / acsc / acoth, x > 0 for log and bases of powers), so zoo / nan / complex "
+    "values never occur; special functions without a `math` counterpart (besselj, gamma, zeta, ...) are not generated",
+    "'the gate's matrix for a real value' is a function of the VALUE: the same real number written as an exact constant "
+    "and as its float must give the same matrix within 1e-9 (clause value:<gate>; for the one-parameter families it is "
+    "the group law G(c)*G(b) = G(float(c+b)))",
 ]
 
 ONE_PARAM_GROUP = ["RX", "RY", "RZ", "RH", "PHASE", "CPHASE", "XX", "YY", "ZZ", "XY"]
@@ -367,6 +397,180 @@ def _raw_value(rng, zero=False, t=None):
         return [t, rat(Fraction(rng.randrange(-40, 41), rng.randrange(1, 12)))]
     return [t, rat(Fraction(rng.randrange(-64, 65), 8))]
 
+# ------------------------------------------------------------------ round 9: exact real constants (symbol-free expressions)
+# A constant is a JSON tree: an int / "p/q" leaf, ["name", N], [f, x] for a function of one argument, ["pow", x, y],
+# ["add", x, ...], ["mul", x, ...], ["neg", x].  `_const_sympy` builds the sympy expression, `_const_value` computes the real
+# number it denotes with `math` only.
+CONST_NAMES = {"pi": math.pi, "E": math.e, "EulerGamma": 0.5772156649015329, "GoldenRatio": (1 + math.sqrt(5)) / 2,
+               "Catalan": 0.915965594177219}
+CONST_FUNCS = {"acosh": math.acosh, "atanh": math.atanh, "asinh": math.asinh, "asin": math.asin, "acos": math.acos,
+               "atan": math.atan, "log": math.log, "exp": math.exp, "sqrt": math.sqrt, "cos": math.cos, "sin": math.sin,
+               "tanh": math.tanh, "asec": lambda x: math.acos(1 / x), "acsc": lambda x: math.asin(1 / x),
+               "acoth": lambda x: math.atanh(1 / x), "asech": lambda x: math.acosh(1 / x)}
+# families whose value at a real argument sympy 1.9 leaves undecided (is_real is None)
+UNDECIDED_FUNCS = ["acosh", "atanh", "asinh", "asec", "acsc", "acoth", "asech"]
+CONST_ATOMS = [
+    ["acosh", 2], ["atanh", "1/2"], ["asin", "1/3"], ["log", 3], ["exp", -2], ["sqrt", 2], ["pow", 2, "1/3"], ["name", "E"],
+    ["name", "EulerGamma"], ["name", "GoldenRatio"], ["cos", 1], ["add", ["mul", "1/7", ["name", "pi"]], ["sqrt", 3]],
+    ["neg", ["acosh", 2]], ["asec", 3], ["acsc", -4], ["acoth", 3], ["asinh", "3/4"], ["asech", "1/2"], ["acos", "-2/5"],
+    ["atan", 5], ["log", "1/3"], ["name", "Catalan"], ["sin", ["sqrt", 2]], ["tanh", "1/2"], ["pow", 5, "-2/3"],
+    ["add", ["acosh", 2], ["atanh", "1/2"], ["neg", ["log", 3]]], ["mul", ["sqrt", 2], ["acosh", 2]],
+    ["mul", ["atanh", "-1/3"], ["name", "pi"]], ["exp", ["neg", ["acosh", "3/2"]]], ["cos", ["atanh", "9/10"]],
+    ["add", ["sqrt", 2], ["sqrt", 3], ["neg", ["name", "pi"]]], ["pow", ["acosh", 2], 2], ["atan", ["asec", -3]],
+]
+# real constants whose value is 0 although the expression does not say so
+CONST_ZEROS = [
+    ["add", ["acosh", 2], ["neg", ["log", ["add", 2, ["sqrt", 3]]]]],
+    ["add", ["pow", ["cos", 1], 2], ["pow", ["sin", 1], 2], -1],
+    ["add", ["atanh", "1/2"], ["mul", "-1/2", ["log", 3]]],
+    ["add", ["acosh", 2], ["neg", ["acosh", 2]]],
+    ["mul", 0, ["atanh", "1/2"]],
+    ["add", ["asinh", "3/4"], ["neg", ["log", 2]]],
+]
+CONST_ROUTES = ["ctor", "bind", "bindexpr", "replace", "symsubs", "attr", "opbind", "opreplace", "mixed"]
+
+
+def _const_sympy(e):
+    import sympy
+    if isinstance(e, (int, str)):
+        return _sprat(e)
+    op, args = e[0], e[1:]
+    if op == "name":
+        return getattr(sympy, args[0]) if args[0] != "E" else sympy.E
+    xs = [_const_sympy(a) for a in args]
+    if op == "add":
+        return sympy.Add(*xs)
+    if op == "mul":
+        return sympy.Mul(*xs)
+    if op == "neg":
+        return -xs[0]
+    if op == "pow":
+        return sympy.Pow(xs[0], xs[1])
+    if op in CONST_FUNCS:
+        return getattr(sympy, op)(xs[0])
+    raise AssertionError("unknown constant " + str(e))
+
+
+def _const_value(e):
+    if isinstance(e, (int, str)):
+        return float(unrat(e))
+    op, args = e[0], e[1:]
+    if op == "name":
+        return CONST_NAMES[args[0]]
+    xs = [_const_value(a) for a in args]
+    if op == "add":
+        return math.fsum(xs)
+    if op == "mul":
+        return math.prod(xs)
+    if op == "neg":
+        return -xs[0]
+    if op == "pow":
+        return xs[0] ** xs[1]
+    return CONST_FUNCS[op](xs[0])
+
+
+def _q(rng, lo, hi, dens=(1, 2, 3, 4, 5, 6, 7, 9, 10, 12)):
+    """a random rational in [lo, hi]"""
+    d = rng.choice(dens)
+    return Fraction(rng.randrange(int(lo * d), int(hi * d) + 1), d)
+
+
+def _const_atom(rng, funcs=None):
+    """one function value at a rational argument inside the function's real domain (never a pole)"""
+    f = rng.choice(funcs or list(CONST_FUNCS))
+    sg = rng.choice([-1, 1])
+    if f in ("acosh",):
+        x = 1 + Fraction(rng.randrange(1, 40), rng.randrange(1, 7))
+    elif f in ("asec", "acsc", "acoth"):
+        x = sg * (1 + Fraction(rng.randrange(1, 40), rng.randrange(1, 7)))
+    elif f in ("atanh", "asin", "acos"):
+        d = rng.randrange(2, 13)
+        x = sg * Fraction(rng.randrange(1, d), d)
+    elif f == "asech":
+        d = rng.randrange(2, 13)
+        x = Fraction(rng.randrange(1, d), d)
+    elif f == "log":
+        x = Fraction(rng.randrange(1, 40), rng.randrange(1, 9))
+        x = x if x != 1 else Fraction(3)
+    elif f == "sqrt":
+        x = Fraction(rng.choice([2, 3, 5, 6, 7, 10, 11]), rng.choice([1, 1, 2, 3]))
+    elif f == "exp":
+        x = _q(rng, -3, 2)
+    else:   # asinh, atan, cos, sin, tanh: total on the reals
+        x = _q(rng, -5, 5) or Fraction(1, 3)
+    return [f, rat(x)]
+
+
+def _const(rng, undecided=False):
+    """a random symbol-free real constant; undecided=True: built around a family sympy cannot decide"""
+    base = _const_atom(rng, UNDECIDED_FUNCS) if undecided else (
+        rng.choice(CONST_ATOMS) if rng.random() < 0.3 else _const_atom(rng))
+    r = rng.random()
+    if r < 0.45:
+        return base
+    if r < 0.6:
+        return ["neg", base]
+    if r < 0.7:
+        return ["mul", rat(_q(rng, -3, 3) or Fraction(1, 2)), base]
+    if r < 0.8:
+        return ["add", base, ["mul", rat(_q(rng, -2, 2) or Fraction(2)), rng.choice(CONST_ATOMS[:25])]]
+    if r < 0.87:
+        return ["mul", base, rng.choice(CONST_ATOMS[:25])]
+    if r < 0.94:
+        return [rng.choice(["cos", "sin", "tanh", "atan", "asinh"]), base]
+    return ["add", base, rat(_q(rng, -4, 4)), ["neg", ["name", rng.choice(list(CONST_NAMES))]]]
+
+
+def _const_cases(rng, big):
+    cases = []
+    rep = 4 if big else 1
+    for name in PARAMETRIC + ["Delay"]:
+        k = _nparams(name)
+        routes = CONST_ROUTES if name != "U3" else (CONST_ROUTES if big else ["ctor", "bind", "replace"])
+        for route in routes:
+            if route == "mixed" and k < 2:
+                continue
+            for und in ([True] if name == "U3" else ([True, False] if route in ("ctor", "bind", "replace") else [True]) * rep):
+                if name == "U3":  # sympy.simplify on nested constants is slow: plain atoms only
+                    consts = [_const_atom(rng, UNDECIDED_FUNCS) if i == 0 else rng.choice(CONST_ATOMS[:12]) for i in range(k)]
+                    rng.shuffle(consts)
+                else:
+                    consts = [_const(rng, undecided=und) for _ in range(k)]
+                c = {"kind": "constgate", "gate": name, "consts": consts, "route": route}
+                if route == "mixed":
+                    mask = [rng.random() < 0.5 for _ in range(k)]
+                    if all(mask) or not any(mask):
+                        mask[rng.randrange(k)] = not mask[0]
+                    c["mask"] = mask
+                cases.append(c)
+    # the catalogue itself, each constant once by the plain constructor
+    names = [n for n in PARAMETRIC if n != "U3"] + ["Delay"]
+    for i, atom in enumerate(CONST_ATOMS):
+        name = names[(i + rng.randrange(len(names))) % len(names)] if i >= len(names) else names[i]
+        cases.append({"kind": "constgate", "gate": name, "consts": [atom] * _nparams(name), "route": "ctor"})
+    # angle 0 written as a constant sympy does not recognise as 0: identity for the one-parameter families
+    for name in ONE_PARAM_GROUP + ["Delay", "MS", "GPi2"]:
+        for _ in range(2 * rep):
+            cases.append({"kind": "constgate", "gate": name, "consts": [rng.choice(CONST_ZEROS) for _ in range(_nparams(name))],
+                          "route": rng.choice(["ctor", "bind", "replace"]), "zero": True})
+    # group law with a + b formed symbolically
+    for name in ONE_PARAM_GROUP:
+        for route in ["ctor", "bind", "replace", "ctor"] * rep:
+            a, b = _const(rng, undecided=True), _const(rng, undecided=rng.random() < 0.5)
+            if rng.random() < 0.5:
+                a, b = b, a
+            cases.append({"kind": "constpair", "gate": name, "a": ["const", a], "b": ["const", b], "route": route})
+        for _ in range(rep):
+            a = _const(rng, undecided=True)
+            # a constant next to a plain number of another type; a constant and its negative; a constant and a hidden zero
+            pairs = [(["const", a], _raw_value(rng)), (["const", a], ["const", ["neg", a]]),
+                     (["const", _const(rng)], ["const", rng.choice(CONST_ZEROS)])]
+            for pa, pb in pairs:
+                if rng.random() < 0.5:
+                    pa, pb = pb, pa
+                cases.append({"kind": "constpair", "gate": name, "a": pa, "b": pb, "route": rng.choice(["ctor", "bind", "replace"])})
+    return cases
+
 
 def corpus():
     return [
@@ -397,6 +601,10 @@ def corpus():
             {"gate": "RY", "angles": [_pt_add(["3/5", "4/5"], ["5/13", "12/13"])], "mode": "float",
              "sum": [["3/5", "4/5"], ["5/13", "12/13"]]}],
            [["read", 0], ["poke", 0, "matrix", "setitem"], ["read", 1], ["read", 2], ["rebuild", 0], ["law", 0, 1, 2]]),
+        # round 9: exact real constants sympy cannot decide
+        {"kind": "constgate", "gate": "RX", "consts": [["acosh", 2]], "route": "ctor"},
+        {"kind": "constgate", "gate": "MS", "consts": [["atanh", "1/2"], ["neg", ["asec", 3]]], "route": "bind"},
+        {"kind": "constpair", "gate": "RZ", "a": ["const", ["atanh", "1/2"]], "b": ["const", ["acosh", 2]], "route": "ctor"},
     ]
 
 
@@ -531,6 +739,8 @@ def generate(rng, tier):
                               "b": [rng.choice([x for x in ["int", "spint", "rat", "float", "spfloat"] if x != t]), 0]})
             for _ in range(6):
                 cases.append({"kind": "rawpair", "gate": name, "a": _raw_value(rng), "b": _raw_value(rng)})
+    # oracle-only: exact real constants (symbol-free sympy expressions) through every route of a parameter value
+    cases.extend(_const_cases(rng, big))
     return cases
 
 
@@ -550,6 +760,10 @@ def nontrivial(c):
         return any(v[1] != 0 for v in c["raw"])
     if k == "rawpair":
         return c["a"][1] != 0 and c["b"][1] != 0
+    if k == "constgate":
+        return c["gate"] != "Delay"
+    if k == "constpair":
+        return True
     return k == "relations"
 
 
@@ -830,6 +1044,81 @@ def _zero_spec(c):
     ang = [[0, 0]] if c["gate"] == "Delay" else [[1, 0]] * len(lit)
     return {"gate": c["gate"], "mode": "lit", "lit": lit, "angles": ang}
 
+def _decided(x):
+    """what sympy itself can say about a constant (recorded for the input-distribution evidence only)"""
+    return [str(getattr(x, a, "n/a")) for a in ("is_real", "is_zero", "is_positive")]
+
+
+def _const_gate(name, consts, route, mask=None, values=None):
+    """the gate `name` at the given sympy constants, obtained through one route -> (gate, substitution still to apply)"""
+    import sympy
+    oqc, bg, _ = _lib()
+    n = len(consts)
+    ts, us = _syms(n), _syms(n, "u")
+    if route == "ctor":
+        return _build(name, consts), None
+    if route == "attr":       # the public name of the package
+        return getattr(oqc, name)(*consts), None
+    if route == "bind":
+        return _build(name, ts).bind(dict(zip(ts, consts))), None
+    if route == "bindexpr":   # the constant arrives inside expressions: 2t, t + u, -t, t + (another constant)
+        params, binds = [], {}
+        for i, x in enumerate(consts):
+            t, u = ts[i], us[i]
+            if i % 4 == 0:
+                params.append(2 * t)
+                binds[t] = x / 2
+            elif i % 4 == 1:
+                params.append(t + u)
+                binds[t], binds[u] = x - sympy.Rational(1, 4), sympy.Rational(1, 4)
+            elif i % 4 == 2:
+                params.append(-t)
+                binds[t] = -x
+            else:
+                params.append(t + x)
+                binds[t] = 0
+        return _build(name, params).bind(binds), None
+    if route == "replace":
+        return _build(name, [0.125 * (i + 1) for i in range(n)]).replace_params(tuple(consts)), None
+    if route == "symsubs":
+        return _build(name, ts), dict(zip(ts, consts))
+    if route == "opbind":     # through the gate operation of a circuit
+        return _build(name, ts)(*range(circ.BUILTIN_QUBITS[name])).bind(dict(zip(ts, consts))).gate, None
+    if route == "opreplace":
+        op = _build(name, [0.25 * (i + 1) for i in range(n)])(*range(circ.BUILTIN_QUBITS[name]))
+        return op.replace_params(tuple(consts)).gate, None
+    if route == "mixed":      # some parameters constants, the others Python floats
+        return _build(name, [x if mk else v for x, mk, v in zip(consts, mask, values)]), None
+    raise AssertionError("unknown route " + str(route))
+
+
+def _pair_operand(v):
+    """-> (parameter object, its real value computed without sympy)"""
+    if v[0] == "const":
+        return _const_sympy(v[1]), _const_value(v[1])
+    return _raw(v), float(unrat(v[1]))
+
+
+def _run_constpair(c):
+    name, route = c["gate"], c["route"]
+    (a, va), (b, vb) = _pair_operand(c["a"]), _pair_operand(c["b"])
+    ab = a + b  # formed by sympy / Python
+    t = _syms(1)[0]
+    if route == "ctor":
+        mk = lambda x: _build(name, [x])  # noqa: E731
+    elif route == "bind":
+        g0 = _build(name, [t])
+        mk = lambda x: g0.bind({t: x})  # noqa: E731
+    elif route == "replace":
+        g0 = _build(name, [0.375])
+        g0.matrix
+        mk = lambda x: g0.replace_params((x,))  # noqa: E731
+    else:
+        raise AssertionError("unknown route " + str(route))
+    return {"a": _num(mk(a).matrix), "b": _num(mk(b).matrix), "ab": _num(mk(ab).matrix),
+            "abf": _num(_build(name, [va + vb]).matrix), "values": [va, vb],
+            "decided": [_decided(x) for x in (a, b, ab)]}
+
 
 def run_impl(c):
     import sympy
@@ -874,6 +1163,16 @@ def run_impl(c):
         a, b = _raw(c["a"]), _raw(c["b"])
         return {"a": _num(_build(c["gate"], [a]).matrix), "b": _num(_build(c["gate"], [b]).matrix),
                 "ab": _num(_build(c["gate"], [a + b]).matrix)}
+    if k == "constgate":
+        consts = [_const_sympy(e) for e in c["consts"]]
+        values = [_const_value(e) for e in c["consts"]]
+        out = _describe(*_const_gate(c["gate"], consts, c["route"], c.get("mask"), values))
+        out["ref"] = _num(_build(c["gate"], values).matrix)    # the same gate at the floats of the same real numbers
+        out["values"] = values
+        out["decided"] = [_decided(x) for x in consts]
+        return out
+    if k == "constpair":
+        return _run_constpair(c)
     if k == "pair":
         pa, pb = _pair_params(c)
         return {"a": _num(_build(c["gate"], [pa]).matrix), "b": _num(_build(c["gate"], [pb]).matrix),
@@ -1057,6 +1356,11 @@ def _gate_clauses(spec, out):
         return ("rel:Delay=I", f"{_label(spec)} is not the identity")
     if spec.get("mode") == "lit" and name in ONE_PARAM_GROUP and not _dev(m, eye) < TOL:
         return (f"group-zero:{name}", f"{name}({spec['lit']}): angle 0 is not the identity")
+    if spec.get("zero") and name in ONE_PARAM_GROUP and not _dev(m, eye) < TOL:
+        return (f"group-zero:{name}", f"{_label(spec)}: angle 0 (a constant whose value is 0) is not the identity")
+    if "ref" in out and not _dev(m, _np(out["ref"])) < TOL:
+        return (f"value:{name}", f"{_label(spec)}: the matrix at these real parameter values (= {out.get('values')}) differs "
+                                 f"from the matrix of {name} at the same values given as floats by {_dev(m, _np(out['ref'])):.3g}")
     return None
 
 
@@ -1067,6 +1371,12 @@ def _law_clause(name, out, what):
     r = _dev(a @ b, ab) if a.shape == b.shape and a.shape[0] == a.shape[1] else float("inf")
     if not r < TOL:
         return (f"group-law:{name}", f"{name}(a)·{name}(b) differs from {name}(a+b) by {r:.3g} at {what}")
+    if "abf" in out:
+        abf = _np(out["abf"])
+        r = _dev(a @ b, abf) if a.shape == abf.shape else float("inf")
+        if not r < TOL:
+            return (f"group-law:{name}", f"{name}(a)·{name}(b) differs from {name}(float of a+b = {sum(out['values'])!r}) by "
+                                         f"{r:.3g} at {what}")
     return None
 
 
@@ -1119,7 +1429,12 @@ def oracle(c, out):
             return ("table-raises", f"the gate table cannot be read: {out}")
         return None
     if isinstance(out, dict) and "exc" in out:
-        return (f"matrix-raises:{name or 'fixed'}", f"{name}{c.get('angles', c.get('raw', ''))}: the matrix cannot be "
+        what = c.get("angles", c.get("raw", c.get("consts", "")))
+        if k == "constpair":
+            what = f"(a={c['a']}, b={c['b']}, a+b formed by sympy +)"
+        if "route" in c:
+            what = f"{what} [exact real constants, route {c['route']}{', mask ' + str(c['mask']) if 'mask' in c else ''}]"
+        return (f"matrix-raises:{name or 'fixed'}", f"{name}{what}: the matrix cannot be "
                                                      f"computed: {out['exc']}: {out.get('msg')}")
     if k == "gate":
         return _gate_clauses(c, out)
@@ -1132,6 +1447,12 @@ def oracle(c, out):
         return _law_clause(name, out, f"a={c['a']}, b={c['b']}" + (f" given as {how}, a+b formed by +" if how else ""))
     if k == "rawpair":
         return _law_clause(name, out, f"a={c['a']}, b={c['b']} (a+b formed by Python/sympy +)")
+    if k == "constgate":
+        return _gate_clauses({"gate": name, "angles": c["consts"], "mode": "const", "route": c["route"],
+                              **({"mask": c["mask"]} if "mask" in c else {}), **({"zero": True} if c.get("zero") else {})}, out)
+    if k == "constpair":
+        return _law_clause(name, out, f"a={c['a']}, b={c['b']} (exact constants, a+b formed by sympy +, gates obtained by "
+                                      f"route {c['route']})")
     if k == "relations":
         return _relation_clauses(out)
     if k == "session":
@@ -1168,5 +1489,26 @@ def distribution(cases, outs):
     for c, o in zip(cases, outs):
         if c["kind"] == "malformed" and isinstance(o, dict):
             errs[str(o.get("err"))] = errs.get(str(o.get("err")), 0) + 1
+    croutes, cgates, cdec, cfun = {}, {}, {"is_real=None": 0, "is_zero=None": 0, "is_positive=None": 0, "constants": 0}, {}
+
+    def _funs(e):
+        if isinstance(e, list):
+            cfun[e[0] if e[0] != "name" else e[1]] = cfun.get(e[0] if e[0] != "name" else e[1], 0) + 1
+            for a in e[1:]:
+                _funs(a)
+
+    for c, o in zip(cases, outs):
+        if c["kind"] in ("constgate", "constpair"):
+            key = f"{c['kind']}:{c['route']}"
+            croutes[key] = croutes.get(key, 0) + 1
+            cgates[c["gate"]] = cgates.get(c["gate"], 0) + 1
+            for e in (c["consts"] if c["kind"] == "constgate" else [v[1] for v in (c["a"], c["b"]) if v[0] == "const"]):
+                _funs(e)
+            for d in (o.get("decided") or []) if isinstance(o, dict) else []:
+                cdec["constants"] += 1
+                for lab, v in zip(("is_real=None", "is_zero=None", "is_positive=None"), d):
+                    cdec[lab] += v == "None"
     return {"cases_per_gate": per_gate, "gate_modes": modes, "malformed_outcomes": errs,
-            "gates_covered": len(per_gate), "session_steps": steps, "session_edits": pokes}
+            "gates_covered": len(per_gate), "session_steps": steps, "session_edits": pokes,
+            "const_routes": croutes, "const_cases_per_gate": cgates, "const_sympy_undecided": cdec,
+            "const_functions": cfun}
